@@ -228,6 +228,21 @@ def eval_docs(variant):
                 if got != [f"d{i}"]:
                     v.append(("dfxp-doc/cue-under-wrong-language", {"lang": l, "got": got}))
         return v, tuple(want)
+    elif kind == "sami-class-and-lang":
+        # <P class="Speaker" lang="fr">: the class is not a language class; the language comes from the attribute
+        class_first = variant[1]
+        attr = 'class="Speaker" lang="fr"' if class_first else 'lang="fr" class="Speaker"'
+        doc = ("<SAMI><HEAD><STYLE TYPE=\"text/css\"><!--\nP { font-family: Arial; }\n.ENCC { Name: English; lang: en-US; }\n.Speaker { color: red; }\n--></STYLE></HEAD><BODY>\n"
+               f"<SYNC start=\"1000\"><P class=\"ENCC\">one</P><P {attr}>un</P></SYNC>\n<SYNC start=\"2000\"><P class=\"ENCC\">two</P><P {attr}>deux</P></SYNC>\n</BODY></SAMI>\n")
+        try:
+            cs = pycaption.SAMIReader().read(doc)
+        except Exception as e:  # noqa
+            return [(f"sami-doc/raises:{type(e).__name__}", {"err": str(e)[:200]})], "raises"
+        want = {"en-US": ["one", "two"], "fr": ["un", "deux"]}
+        got = {l: [parsers.norm_line(c.get_text()) for c in cs.get_captions(l)] for l in cs.get_languages()}
+        if got != want or cs.get_languages() != ["en-US", "fr"]:
+            v.append(("sami-doc/class-and-lang-attribute/cue-under-wrong-language-or-lost", {"got": got, "languages": cs.get_languages(), "want": want}))
+        return v, tuple(got)
     else:
         _, order, use_attr, quote = variant
         # each language has two cues; syncs interleaved according to `order` (a permutation of language indexes
@@ -329,6 +344,8 @@ def run_shard(d):
             for order in itertools.permutations(range(n)):
                 for use_attr in (False, True):
                     variants.append(("sami", order, use_attr, '"'))
+        variants.append(("sami-class-and-lang", True))
+        variants.append(("sami-class-and-lang", False))
         for var in variants:
             v, out = eval_docs(var)
             acc.case(("doc", var, os.environ.get("PYCAPTION_DEFAULT_LANG")), True, out, {"document_variant": var, "hashseed": os.environ.get("PYTHONHASHSEED"), "PYCAPTION_DEFAULT_LANG": os.environ.get("PYCAPTION_DEFAULT_LANG")})
